@@ -663,7 +663,7 @@ func DB(rng *rand.Rand) map[string]*RTable {
 		if rng.Intn(8) == 0 {
 			n = 0
 		}
-		dupRows := rng.Intn(3) == 0
+		dupRows := rng.Intn(2) == 0
 		for i := 0; i < n; i++ {
 			var row []val.V
 			if dupRows && i > 0 && rng.Intn(2) == 0 {
